@@ -25,6 +25,7 @@ inductive Call
   | openFile (id : Nat) (name : Name) (flag : Nat) (perm : Int)
   | open_ (id : Nat) (name : Name)
   | hwrite (id : Nat) (data : Bytes)
+  | hwriteString (id : Nat) (data : Bytes)
   | hsync (id : Nat)
   | hclose (id : Nat)
   | hreaddir (id : Nat) (count : Int)
@@ -85,6 +86,14 @@ def Sys.step (f : FsCfg) (s : Sys) (env : Env) : Call → Sys × Except Err Val
     | (w, .ok o) => (({ s with w := w } : Sys).setHandle id (Handle.ofOpened o), .ok .unit)
     | (w, .error e) => ({ s with w := w }, .error e)
   | .hwrite id data =>
+    match s.getHandle id with
+    | none => (s, .ok .badHandle)
+    | some h =>
+      match hWrite f h data s.w with
+      | (w, .ok (h, n)) => (({ s with w := w } : Sys).setHandle id h, .ok (.count n))
+      | (w, .error e) => ({ s with w := w }, .error e)
+  | .hwriteString id data =>
+    -- `WriteString` is `Write` on the bytes of the string
     match s.getHandle id with
     | none => (s, .ok .badHandle)
     | some h =>
